@@ -98,6 +98,12 @@ func refusals() []refusal {
 		{"first-frame-is-connect-response", one(line("SpecMPX/1\n"), netx.Frame(netx.MsgConnectResponse(pmpx.ConnectCompression_None)))},
 		{"first-frame-is-garbage", one(line("SpecMPX/1\n"), netx.Frame([]byte("not a spec message")))},
 		{"first-frame-empty", one(line("SpecMPX/1\n"), netx.Frame(nil))},
+		// a well-formed connect_request FIELD inside a message of another code is not a connect request
+		{"connect-request-field-under-code:open", one(line("SpecMPX/1\n"), netx.Frame(netx.MsgConnectRequestCode(pmpx.Code_ChannelOpen, true)))},
+		{"connect-request-field-under-code:data", one(line("SpecMPX/1\n"), netx.Frame(netx.MsgConnectRequestCode(pmpx.Code_ChannelData, true)))},
+		{"connect-request-field-under-code:batch", one(line("SpecMPX/1\n"), netx.Frame(netx.MsgConnectRequestCode(pmpx.Code_Batch, true)))},
+		{"connect-request-field-under-code:connect-response", one(line("SpecMPX/1\n"), netx.Frame(netx.MsgConnectRequestCode(pmpx.Code_ConnectResponse, true)))},
+		{"connect-request-field-under-code:none", one(line("SpecMPX/1\n"), netx.Frame(netx.MsgConnectRequestCode(0, false)))},
 		{"first-frame-is-data", func(tag uint32) [][]byte {
 			return [][]byte{line("SpecMPX/1\n"), netx.Frame(netx.MsgData(netx.NewID(uint64(tag), 5), netx.MakePayload(tag, 0, 0, 30)))}
 		}},
